@@ -102,7 +102,7 @@ func printfRule(w *World, r *Result, rel string) int {
 			format := constant.StringVal(tv.Value)
 			// %+q / %#q / %x of text are Go-specific spellings (\U0001d4b3, backquotes, hex): fine in Go sources, wrong in
 			// every other target language
-			if rel != "generator/go/gounions" && rel != "generator/go/randdata" && rel != "generator/go/sqlcrud" && fullName(calleeOf(info, call)) == "fmt.Sprintf" {
+			if rel != "generator/go/gounions" && rel != "generator/go/randdata" && rel != "generator/go/sqlcrud" && (fullName(calleeOf(info, call)) == "fmt.Sprintf" || fullName(calleeOf(info, call)) == "fmt.Fprintf") {
 				for _, m := range regexp.MustCompile(`%(\[\d+\])?[+#0 -]+[qsv]`).FindAllString(format, -1) {
 					fname := "?"
 					for _, fi := range sortedFuncs(w) {
@@ -183,7 +183,7 @@ func checkRandNames(w *World, r *Result) {
 							content = c
 						} else if id := identOf(kv.Value); id != nil {
 							for _, d := range defsIn(info, fi.Decl, objOf(info, id)) {
-								if c, ok := d.(*ast.CallExpr); ok && fullName(calleeOf(info, c)) == "fmt.Sprintf" {
+								if c, ok := d.(*ast.CallExpr); ok && isSprintf(info, &c) {
 									content = c
 								}
 							}
@@ -191,7 +191,7 @@ func checkRandNames(w *World, r *Result) {
 					}
 				}
 			}
-			if idE == nil || content == nil || fullName(calleeOf(info, content)) != "fmt.Sprintf" {
+			if idE == nil || content == nil || !isSprintf(info, &content) {
 				return true
 			}
 			format, vas := verbArgs(info, content)
@@ -430,7 +430,7 @@ func checkConverterClosure(w *World, r *Result) {
 		seen := map[string]bool{}
 		ast.Inspect(fi.Decl.Body, func(x ast.Node) bool {
 			call, ok := x.(*ast.CallExpr)
-			if !ok || fullName(calleeOf(info, call)) != "fmt.Sprintf" {
+			if !ok || !isSprintf(info, &call) {
 				return true
 			}
 			format, vas := verbArgs(info, call)
@@ -602,7 +602,7 @@ func checkUniqueSelectors(w *World, r *Result) {
 			subst := map[types.Object]string{finfo.Defs[v]: "$key"}
 			ast.Inspect(rs.Body, func(y ast.Node) bool {
 				sp, ok := y.(*ast.CallExpr)
-				if !ok || fullName(calleeOf(finfo, sp)) != "fmt.Sprintf" || len(sp.Args) == 0 {
+				if !ok || !isSprintf(finfo, &sp) || len(sp.Args) == 0 {
 					return true
 				}
 				tv := finfo.Types[sp.Args[0]]
